@@ -51,7 +51,19 @@ def exc_name(ex):
     return None if ex is None else type(ex).__name__
 
 
+class _Skip:
+    """Observed value of a white-box facet whose private attributes no longer have the anchored shape: the facet is
+    not compared (a refactoring of private state is never an alarm); recorded in the statistics."""
+    def __repr__(self):
+        return 'SKIP'
+
+
+SKIP = _Skip()
+
+
 def _eq(obs, exp):
+    if obs is SKIP:
+        return True
     if callable(exp):
         try:
             return bool(exp(obs))
@@ -117,6 +129,9 @@ def walk(graph, adapter, labels, own, stats, start=None, targets=None, known_ok=
         obs = adapter.step(name, args, pre)
         stats.steps += 1
         stats.actions[name] = stats.actions.get(name, 0) + 1
+        for f, v in obs.items():
+            if v is SKIP:
+                stats.extra['whitebox_facet_skipped:' + f] = stats.extra.get('whitebox_facet_skipped:' + f, 0) + 1
         chosen = None
         best = None
         foreign_only = None
